@@ -173,6 +173,82 @@ impl StreamHeader {
 //@ end
 }
 
+// ---- stream.rs: uniremote::upgrade / upgrade_async ---------------------------------------------
+//@ extract wtransport-proto/src/error.rs >> enum ErrorCode
+//@ end
+
+//@ extract wtransport-proto/src/stream.rs >> enum IoReadError
+//@ subst `enum IoReadError` => `enum StreamIoReadError`
+//@ subst `IO(bytes::IoReadError)` => `IO(BytesIoReadError)`
+//@ end
+
+//@ extract wtransport-proto/src/stream.rs >> struct Stream
+//@ end
+//@ extract wtransport-proto/src/stream.rs >> mod types >> struct Uni
+//@ end
+//@ extract wtransport-proto/src/stream.rs >> mod types >> struct Remote
+//@ end
+//@ extract wtransport-proto/src/stream.rs >> mod types >> struct UniRemote
+//@ end
+//@ extract wtransport-proto/src/stream.rs >> mod types >> struct Quic
+//@ end
+//@ extract wtransport-proto/src/stream.rs >> mod types >> struct H3
+//@ end
+
+impl H3 {
+//@ extract wtransport-proto/src/stream.rs >> mod types >> impl H3 >> fn new
+//@ ensures r.stream_header == stream_header, r.first_frame_done == false
+//@ end
+}
+
+//@ extract wtransport-proto/src/stream.rs >> mod uniremote >> enum MaybeUpgradeH3
+//@ rename `StreamUniRemoteQuic` => `Stream<UniRemote, Quic>`
+//@ rename `StreamUniRemoteH3` => `Stream<UniRemote, H3>`
+//@ end
+
+impl Stream<UniRemote, Quic> {
+//@ extract wtransport-proto/src/stream.rs >> mod uniremote >> impl StreamUniRemoteQuic >> fn upgrade
+//@ rename `stream_header::ParseError` => `HeaderParseError`
+//@ rename `StreamUniRemoteH3` => `Stream::<UniRemote, H3>`
+//@ ensures
+//@ | match ref_header(old(bytes_reader).remaining()) {
+//@ |     RefHeader::NeedMore => r matches Ok(MaybeUpgradeH3::Quic(_)),
+//@ |     RefHeader::Unknown => r matches Err(ErrorCode::StreamCreation),
+//@ |     RefHeader::InvalidSessionId => r matches Err(ErrorCode::Id),
+//@ |     RefHeader::Header { kind, session, consumed } => r matches Ok(MaybeUpgradeH3::H3(s))
+//@ |         && s.stage.stream_header is Some && s.stage.stream_header->0.matches_ref(ref_header(old(bytes_reader).remaining()))
+//@ |         && !s.stage.first_frame_done
+//@ |         && final(bytes_reader).remaining() == old(bytes_reader).remaining().skip(consumed),
+//@ | }
+//@ end
+
+//@ extract wtransport-proto/src/stream.rs >> mod uniremote >> impl StreamUniRemoteQuic >> fn upgrade_async
+//@ subst `async fn` => `fn`
+//@ subst `R: AsyncRead + Unpin + ?Sized,` => `R: AsyncReader,`
+//@ subst `.await` => ``
+//@ rename `stream_header::IoReadError` => `HeaderIoReadError`
+//@ rename `stream_header::ParseError` => `HeaderParseError`
+//@ rename `bytes::IoReadError` => `BytesIoReadError`
+//@ rename `Result<StreamUniRemoteH3, IoReadError>` => `Result<Stream<UniRemote, H3>, StreamIoReadError>`
+//@ rename `StreamUniRemoteH3 {` => `Stream::<UniRemote, H3> {`
+//@ rename `Err(IoReadError::` => `Err(StreamIoReadError::`
+//@ ensures
+//@ | match ref_header(old(reader).remaining()) {
+//@ |     RefHeader::NeedMore => if old(reader).remaining().len() == 0 {
+//@ |             r matches Err(StreamIoReadError::IO(BytesIoReadError::ImmediateFin))
+//@ |         } else {
+//@ |             r matches Err(StreamIoReadError::H3(ErrorCode::Frame))
+//@ |         },
+//@ |     RefHeader::Unknown => r matches Err(StreamIoReadError::H3(ErrorCode::StreamCreation)),
+//@ |     RefHeader::InvalidSessionId => r matches Err(StreamIoReadError::H3(ErrorCode::Id)),
+//@ |     RefHeader::Header { kind, session, consumed } => r matches Ok(s)
+//@ |         && s.stage.stream_header is Some && s.stage.stream_header->0.matches_ref(ref_header(old(reader).remaining()))
+//@ |         && !s.stage.first_frame_done
+//@ |         && final(reader).remaining() == old(reader).remaining().skip(consumed),
+//@ | }
+//@ end
+}
+
 } // verus!
 
 fn main() {}
